@@ -256,7 +256,7 @@ func runSyncCase(r *rng, stats map[string]int) (string, map[string]any, bool) {
 	mqtt.VerifEvent = rec.hook
 	defer func() { mqtt.VerifEvent = defaultHook }()
 
-	o := seqOpts{bufSize: 256, pause: r.chance(2, 3), max1: 4, max2: 4, faultRate: pick(r, 0, 40, 120), lossRate: pick(r, 0, 200), steps: 40}
+	o := seqOpts{bufSize: 256, pause: r.chance(2, 3), max1: 4, max2: 4, faultRate: pick(r, 0, 40, 120), lossRate: pick(r, 0, 200), steps: 40, hostile: syncHostile}
 	log := &evlog{}
 	sc := &scenario{r: r, opts: o, awaitRel: map[uint16]bool{}, conns: map[*simConn]*brokerConn{}, budgetIn: 6}
 	var scMu sync.Mutex
@@ -1735,12 +1735,46 @@ func runAckDuringWrite(stats map[string]int, level int) (string, map[string]any)
 	return renderSched(rec, s, fmt.Sprintf("the broker acknowledges a QoS %d PUBLISH that is still being written; then the write fails", level))
 }
 
+// syncHostile makes the scripted broker of the concurrent runs violate the protocol now and then.
+var syncHostile bool
+
 func runSync13(tier string, seed uint64, out string) error {
 	cs := newCaseSet("SYNC13", "SyncCheck", "synccase", "sync_run_c13")
 	stats := map[string]int{}
 	for i, level := range []int{1, 2} {
 		term, desc := runAckDuringWrite(stats, level)
 		desc["index"] = -1 - i
+		cs.add(term, desc, "sync-run", true)
+	}
+	if err := cs.write(out, 5); err != nil {
+		return err
+	}
+	// concurrent runs against a hostile scripted broker, on one P and on all of them
+	n := 40
+	if tier == "thorough" {
+		n = 600
+	}
+	r := newRng(seed)
+	syncHostile = true
+	defer func() { syncHostile = false }()
+	for i := 0; i < n; i++ {
+		hr := newRng(r.u64())
+		var term string
+		var desc map[string]any
+		var ok bool
+		old := 0
+		if i%2 == 0 {
+			old = runtime.GOMAXPROCS(1)
+		}
+		bubble(func() { term, desc, ok = runSyncCase(hr, stats) })
+		if old != 0 {
+			runtime.GOMAXPROCS(old)
+		}
+		if !ok {
+			continue
+		}
+		desc["index"] = i
+		desc["hostile"] = true
 		cs.add(term, desc, "sync-run", true)
 	}
 	for k, v := range stats {
